@@ -840,7 +840,7 @@ PROPS["C14"] = {'claimed': True,
  'assumptions': ['histories = arbitrary callback lists; C14_contract_safe additionally assumes the FdlApplication contract (C15)',
                  'max_retry_limit >= 1 for C14_lifecycle (ParametersBuilder allows 1..15)',
                  'peripheral set fixed during a history; fresh peripherals (Peripheral::new) or any start state satisfying the stated invariant'],
- 'partial_gap': 'HighPrioOnly is varied per transmit call by the harness; the rule "a master that is not stopped returns None without cycle_completed and without a peripheral event only as the call that closes a cycle completed by the preceding reply" (DpOracle.c14_silent_none_monitor, oracle turn_skipped_on_high_prio) is monitored on the implementation, it is not part of Proofs/DpOracleSound.v. add() during a history is not covered (the peripheral set is fixed; the executable monitor marks such cycles and does not judge '
+ 'partial_gap': 'The life-cycle oracle the driver runs is DpOracle.c14_monitor_lenient: c14_monitor_ra, and when that rejects, once more with the Diagnostics events dropped that occur while the peripheral is live but not yet Configured (the property text does not say when a Diagnostics event may occur; l_step, over which C14_lifecycle is stated for the model, allows them only once Configured). It accepts whatever c14_monitor_ra accepts (Proofs/DpLenient.v: c14_lenient_accepts, c14_lenient_sound). HighPrioOnly is varied per transmit call by the harness; the rule "a master that is not stopped returns None without cycle_completed and without a peripheral event only as the call that closes a cycle completed by the preceding reply" (DpOracle.c14_silent_none_monitor, oracle turn_skipped_on_high_prio) is monitored on the implementation, it is not part of Proofs/DpOracleSound.v. add() during a history is not covered (the peripheral set is fixed; the executable monitor marks such cycles and does not judge '
                 'them either). "Retransmission" is stated as: same frame count bit, same slot, at most 1+max_retry per turn - that the bytes repeat '
                 'is C08 (and not true of Data_Exchange when the user rewrites pi_q between retries). Freedom from the other panic sites (u8 index '
                 'for > 256 slots, Instant overflow, transmit buffer too small) is C05; theorems are stated up to a panic.'}
